@@ -179,4 +179,134 @@ theorem fine_needs_bump_before_every_transition :
     (FSys.runV .code handTable {} lateCallbackAfterSub).map (fun r => r.2) = some [.c0 0x1A] := by
   decide +kernel
 
+/-! ### completeness of the enumeration -/
+
+/-- what the reader still has to deliver / whether a `Close()` is still to come, after a label -/
+def insAfter (ins : List Nat) : SLabel → List Nat
+  | .read (.rune _) => ins.drop 1
+  | _ => ins
+def mcAfter (mc : Bool) : SLabel → Bool
+  | .close => false
+  | _ => mc
+
+/-- A complete schedule under the two reductions of `Model/ParserRunSched.lean`: at every state that is
+    not finished the next label is one of `enabled` (any enabled statement of any goroutine; the read
+    returns the next scripted input; `Close()` in front of a `select`; expiry right after arming), it
+    executes, and the rest is such a schedule; it ends in a finished state. -/
+inductive Reduced (T : Table) : FSys → List Nat → Bool → List SLabel → Prop
+  | done (f ins mc) : finished f = true → Reduced T f ins mc []
+  | step (f ins mc l f1 o ls) : finished f = false → l ∈ enabled T f ins mc → sstep T f l = some (f1, o) →
+      Reduced T f1 (insAfter ins l) (mcAfter mc l) ls → Reduced T f ins mc (l :: ls)
+
+/-- one step of the fold in `enumerate` -/
+def gstep (T : Table) (fuel : Nat) (f : FSys) (ins : List Nat) (mc : Bool) (pre : List SLabel) (cap : Nat)
+    (acc : List (List SLabel)) (l : SLabel) : List (List SLabel) :=
+  match sstep T f l with
+  | none => acc
+  | some (f1, _) => enumerate T fuel f1 (insAfter ins l) (mcAfter mc l) (l :: pre) cap acc
+
+theorem enumerate_succ (T : Table) (fuel : Nat) (f : FSys) (ins : List Nat) (mc : Bool) (pre : List SLabel) (cap : Nat)
+    (acc : List (List SLabel)) :
+    enumerate T (fuel + 1) f ins mc pre cap acc =
+      if acc.length ≥ cap then acc else if finished f then pre.reverse :: acc
+      else (enabled T f ins mc).foldl (gstep T fuel f ins mc pre cap) acc := by
+  rw [enumerate]
+  split
+  · rfl
+  · split
+    · rfl
+    · congr 1
+
+/-- the enumeration only adds schedules -/
+theorem enumerate_mono (T : Table) : ∀ (fuel : Nat) (f : FSys) (ins : List Nat) (mc : Bool) (pre : List SLabel) (cap : Nat)
+    (acc : List (List SLabel)),
+    (∀ s ∈ acc, s ∈ enumerate T fuel f ins mc pre cap acc) ∧ acc.length ≤ (enumerate T fuel f ins mc pre cap acc).length := by
+  intro fuel
+  induction fuel with
+  | zero => intro f ins mc pre cap acc; simp [enumerate]
+  | succ fuel ih =>
+    intro f ins mc pre cap acc
+    rw [enumerate_succ]
+    split
+    · exact ⟨fun s h => h, Nat.le_refl _⟩
+    · split
+      · exact ⟨fun s h => List.mem_cons_of_mem _ h, by simp⟩
+      · have key : ∀ (en : List SLabel) (a : List (List SLabel)),
+            (∀ s ∈ a, s ∈ en.foldl (gstep T fuel f ins mc pre cap) a) ∧
+            a.length ≤ (en.foldl (gstep T fuel f ins mc pre cap) a).length := by
+          intro en
+          induction en with
+          | nil => intro a; simp
+          | cons l en ihen =>
+            intro a
+            simp only [List.foldl_cons]
+            have hg : (∀ s ∈ a, s ∈ gstep T fuel f ins mc pre cap a l) ∧ a.length ≤ (gstep T fuel f ins mc pre cap a l).length := by
+              unfold gstep
+              cases sstep T f l with
+              | none => exact ⟨fun s h => h, Nat.le_refl _⟩
+              | some r => exact ih _ _ _ _ _ _
+            obtain ⟨h1, h2⟩ := ihen (gstep T fuel f ins mc pre cap a l)
+            exact ⟨fun s hs => h1 s (hg.1 s hs), Nat.le_trans hg.2 h2⟩
+        exact key _ acc
+
+theorem fold_mono (T : Table) (fuel : Nat) (f : FSys) (ins : List Nat) (mc : Bool) (pre : List SLabel) (cap : Nat) :
+    ∀ (en : List SLabel) (a : List (List SLabel)),
+      (∀ s ∈ a, s ∈ en.foldl (gstep T fuel f ins mc pre cap) a) ∧
+      a.length ≤ (en.foldl (gstep T fuel f ins mc pre cap) a).length := by
+  intro en
+  induction en with
+  | nil => intro a; simp
+  | cons l en ihen =>
+    intro a
+    simp only [List.foldl_cons]
+    have hg : (∀ s ∈ a, s ∈ gstep T fuel f ins mc pre cap a l) ∧ a.length ≤ (gstep T fuel f ins mc pre cap a l).length := by
+      unfold gstep
+      cases sstep T f l with
+      | none => exact ⟨fun s h => h, Nat.le_refl _⟩
+      | some r => exact enumerate_mono T _ _ _ _ _ _ _
+    obtain ⟨h1, h2⟩ := ihen (gstep T fuel f ins mc pre cap a l)
+    exact ⟨fun s hs => h1 s (hg.1 s hs), Nat.le_trans hg.2 h2⟩
+
+theorem enumerate_complete_acc (T : Table) : ∀ (fuel : Nat) (f : FSys) (ins : List Nat) (mc : Bool) (pre : List SLabel)
+    (cap : Nat) (acc : List (List SLabel)) (ls : List SLabel),
+    Reduced T f ins mc ls → ls.length < fuel → (enumerate T fuel f ins mc pre cap acc).length < cap →
+    pre.reverse ++ ls ∈ enumerate T fuel f ins mc pre cap acc := by
+  intro fuel
+  induction fuel with
+  | zero => intro f ins mc pre cap acc ls _ h; omega
+  | succ fuel ih =>
+    intro f ins mc pre cap acc ls hr hlen hcap
+    have hm := (enumerate_mono T (fuel + 1) f ins mc pre cap acc).2
+    rw [enumerate_succ] at hcap hm ⊢
+    have hacc : ¬ acc.length ≥ cap := by
+      intro h; rw [if_pos h] at hcap; omega
+    rw [if_neg hacc] at hcap hm ⊢
+    cases hr with
+    | done _ _ _ hfin => rw [if_pos hfin]; simp
+    | step _ _ _ l f1 o ls' hnf hen hs hrest =>
+      have hnf' : ¬ finished f = true := by rw [hnf]; simp
+      rw [if_neg hnf'] at hcap hm ⊢
+      obtain ⟨en1, en2, hsplit⟩ := List.append_of_mem hen
+      rw [hsplit, List.foldl_append, List.foldl_cons] at hcap ⊢
+      -- the accumulator when the fold reaches `l`, and after it
+      have h2 := fold_mono T fuel f ins mc pre cap en2 (gstep T fuel f ins mc pre cap (en1.foldl (gstep T fuel f ins mc pre cap) acc) l)
+      apply h2.1
+      have hg : gstep T fuel f ins mc pre cap (en1.foldl (gstep T fuel f ins mc pre cap) acc) l =
+          enumerate T fuel f1 (insAfter ins l) (mcAfter mc l) (l :: pre) cap (en1.foldl (gstep T fuel f ins mc pre cap) acc) := by
+        unfold gstep; rw [hs]
+      rw [hg] at h2 hcap ⊢
+      have := ih f1 (insAfter ins l) (mcAfter mc l) (l :: pre) cap (en1.foldl (gstep T fuel f ins mc pre cap) acc) ls' hrest
+        (by simp only [List.length_cons] at hlen; omega) (by have := h2.2; omega)
+      simpa using this
+
+/-- **The enumeration is complete**: as long as the cap is not reached, every complete schedule under
+    the two reductions, shorter than the fuel, is in the list — with `enumerate_sound`: the list is
+    exactly the set of such interleavings of the statements of `run` (and of the reader's returns,
+    `Close()`, timer expiries) with the statements of the callbacks.  (Any table.) -/
+theorem enumerate_complete (T : Table) (fuel : Nat) (ins : List Nat) (mc : Bool) (cap : Nat) (ls : List SLabel)
+    (hr : Reduced T {} ins mc ls) (hlen : ls.length < fuel)
+    (hcap : (enumerate T fuel {} ins mc [] cap []).length < cap) :
+    ls ∈ enumerate T fuel {} ins mc [] cap [] := by
+  simpa using enumerate_complete_acc T fuel {} ins mc [] cap [] ls hr hlen hcap
+
 end VaxisModel.Props.C08Sched
